@@ -54,13 +54,15 @@ def r4_1(repo: Repo, rule: str = "R4.1") -> RuleResult:
         for call in repo.calls_in(caller):
             tgt = [t for t in repo.resolve_call(caller, call) if isinstance(t, Func)]
             hit = [t for t in tgt if any(t is f for f, _ in accs)]
-            if not hit or not call.args:
+            if not hit:
                 continue
-            if any(caller is f for f, _ in accs) and norm(call.args[0]) == caller.params[0]:
-                pass
+            acc_param = [p_ for f_, p_ in accs if f_ is hit[0]][0]
+            bound0 = repo.bind_args(hit[0], call).get(acc_param)
+            if bound0 is None:
+                continue
             pm = pm or parents_map(caller.node)
             st = enclosing_stmt(call, pm)
-            arg0 = norm(call.args[0])
+            arg0 = norm(bound0)
             construct = "%s(%s, ...)" % (hit[0].name, arg0)
             if isinstance(st, ast.Assign) and st.value is call and len(st.targets) == 1 and norm(st.targets[0]) == arg0:
                 rr.ok(caller, construct, "`%s = %s(%s, ...)`" % (arg0, hit[0].name, arg0), call.lineno)
@@ -89,7 +91,7 @@ def r4_2(repo: Repo) -> RuleResult:
     app = repo.func(COO_FILE, "coo_append")
     for f in build_kernels(repo):
         calls = [c for c in repo.calls_in(f) if app in repo.resolve_call(f, c)]
-        tup = calls[0].args[1] if calls and len(calls[0].args) >= 2 else None
+        tup = repo.bind_args(app, calls[0]).get(app.params[1]) if calls else None
         if not (isinstance(tup, ast.Tuple) and len(tup.elts) == 4):
             raise AnalysisError("R4.2: %s does not append a (row, col, val, key) tuple" % f.key)
         sd = single_defs(f)
